@@ -1,5 +1,6 @@
 """Reader for parsing a DiffX file into DOM objects."""
 
+from pydiffx.errors import DiffXParseError
 from pydiffx.reader import DiffXReader
 from pydiffx.sections import Section
 
@@ -122,7 +123,17 @@ class DiffXDOMReader(object):
             section_info (dict):
                 Information on the section from the streaming reader.
         """
-        section.preamble = section_info['text']
+        text = section_info['text']
+
+        if not isinstance(text, str):
+            # The streaming reader couldn't decode the text, as there's no
+            # encoding on this section or on any parent section.
+            raise DiffXParseError(
+                'The preamble cannot be decoded, as no encoding was '
+                'specified for it or for any parent section',
+                linenum=section_info['line'])
+
+        section.preamble = text
         self._set_content_options(section.preamble_section,
                                   section_info['options'])
 
